@@ -101,7 +101,7 @@ pub struct SimMeta {
 }
 
 pub trait Sim {
-    type Script: Serialize + DeserializeOwned + Clone;
+    type Script: Serialize + DeserializeOwned + Clone + Send + Sync;
     fn name() -> &'static str;
     fn properties() -> &'static [&'static str];
     fn runs(property: &str, tier: Tier) -> u64;
@@ -110,6 +110,20 @@ pub trait Sim {
     fn run(script: &Self::Script, tape: &mut Tape, keep_log: bool) -> RunOut;
     /// Candidate simplifications of a script, simplest first.
     fn shrink(script: &Self::Script) -> Vec<Self::Script>;
+}
+
+/// Every run executes on a fresh OS thread: thread-local PRNG state inside dependencies
+/// (`rand::thread_rng`, std's `RandomState` keys) is then initialised from the entropy seam at
+/// the start of the run instead of depending on which runs this process executed before.
+pub fn run_isolated<S: Sim>(script: &S::Script, tape: &mut Tape, keep_log: bool) -> RunOut {
+    std::thread::scope(|sc| {
+        std::thread::Builder::new()
+            .stack_size(8 << 20)
+            .spawn_scoped(sc, || S::run(script, tape, keep_log))
+            .expect("spawn run thread")
+            .join()
+            .unwrap_or_else(|_| harness_error("a simulator run panicked (harness bug)"))
+    })
 }
 
 pub fn harness_error(msg: &str) -> ! {
@@ -219,13 +233,13 @@ pub fn main_for<S: Sim>(args: &[String]) -> ! {
                 while j < index {
                     let (sc, tr) = one_case::<S>(seed, j, tier, &property);
                     let mut tp = Tape::generate(tr);
-                    let _ = S::run(&sc, &mut tp, false);
+                    let _ = run_isolated::<S>(&sc, &mut tp, false);
                     j += stride;
                 }
             }
             let (script, tape_rng) = one_case::<S>(seed, index, tier, &property);
             let mut tape = Tape::generate(tape_rng);
-            let out = S::run(&script, &mut tape, true);
+            let out = run_isolated::<S>(&script, &mut tape, true);
             println!("script: {}", serde_json::to_string(&script).unwrap());
             for l in &out.log.lines {
                 println!("{l}");
@@ -269,7 +283,7 @@ fn shrink_case<S: Sim>(
         }
         *budget -= 1;
         let mut tp = Tape::replay(t.to_vec());
-        let out = S::run(s, &mut tp, false);
+        let out = run_isolated::<S>(s, &mut tp, false);
         if has_target(&out, property, invariant) { Some(tp.rec) } else { None }
     };
     loop {
@@ -295,7 +309,7 @@ fn shrink_case<S: Sim>(
                     }
                     *budget_runs -= 1;
                     let mut tp = Tape::generate(Rng::new(mix(0x5eed ^ attempt, "shrink", ci as u64 ^ (tape.len() as u64) << 20)));
-                    let out = S::run(cand, &mut tp, false);
+                    let out = run_isolated::<S>(cand, &mut tp, false);
                     if has_target(&out, property, invariant) {
                         script = cand.clone();
                         tape = tp.rec;
@@ -369,12 +383,12 @@ fn batch<S: Sim>(b: &BatchArgs) {
     let mut seen_classes: BTreeMap<(String, String, String), usize> = BTreeMap::new();
     let replay_dir = verif_dir().join("replays").join(&b.property);
     let mut index = b.offset;
-    let mut shrink_budget: u64 = 20_000;
+    let mut shrink_total: u64 = 400_000;
     while index < b.runs {
         let (script, tape_rng) = one_case::<S>(b.seed, index, tier, &b.property);
         let mut tape = Tape::generate(tape_rng);
         let keep = p.samples.len() < 2 && index % 7 == b.offset % 7;
-        let out = S::run(&script, &mut tape, keep);
+        let out = run_isolated::<S>(&script, &mut tape, keep);
         p.runs += 1;
         p.sim_ns += out.sim_ns;
         for (k, v) in &out.counters {
@@ -421,20 +435,23 @@ fn batch<S: Sim>(b: &BatchArgs) {
             let (s2, t2) = if b.no_shrink {
                 (script.clone(), tape.rec.clone())
             } else {
-                let before = shrink_budget;
-                let r = shrink_case::<S>(script.clone(), tape.rec.clone(), &v.property, &v.invariant, &mut shrink_budget);
-                p.shrink_runs += before - shrink_budget;
+                // per-case budget, bounded by a per-worker total
+                let mut budget = 6_000u64.min(shrink_total);
+                let before = budget;
+                let r = shrink_case::<S>(script.clone(), tape.rec.clone(), &v.property, &v.invariant, &mut budget);
+                p.shrink_runs += before - budget;
+                shrink_total -= before - budget;
                 r
             };
             // Final run of the minimised case, with the log kept.
             let mut tp = Tape::replay(t2.clone());
-            let fin = S::run(&s2, &mut tp, true);
+            let fin = run_isolated::<S>(&s2, &mut tp, true);
             let Some(fv) = fin.violations.iter().find(|x| x.property == v.property && x.invariant == v.invariant).cloned() else {
                 harness_error(&format!("shrunk case lost its violation (index {index})"));
             };
             // Replaying the minimised case must reproduce it exactly.
             let mut tp2 = Tape::replay(t2.clone());
-            let again = S::run(&s2, &mut tp2, false);
+            let again = run_isolated::<S>(&s2, &mut tp2, false);
             let exact = again.log.hash == fin.log.hash && has_target(&again, &fv.property, &fv.invariant);
             let key = (fv.property.clone(), fv.invariant.clone(), fv.signature.clone());
             if let Some(i) = seen_classes.get(&key) {
@@ -489,7 +506,7 @@ fn replay<S: Sim>(a: &[String]) -> ! {
     let data = std::fs::read(&file).unwrap_or_else(|e| harness_error(&format!("cannot read {file}: {e}")));
     let rf: ReplayFile<S::Script> = serde_json::from_slice(&data).unwrap_or_else(|e| harness_error(&format!("cannot parse {file}: {e}")));
     let mut tp = Tape::replay(rf.tape.clone());
-    let out = S::run(&rf.script, &mut tp, true);
+    let out = run_isolated::<S>(&rf.script, &mut tp, true);
     for l in &out.log.lines {
         println!("{l}");
     }
